@@ -55,4 +55,13 @@ FIXED_BY_SUBJECT = {
    ('C08', '61 80 00 00 decoded with a tagged CHOICE type returned a valueless CHOICE')],
  "fix: CER/DER strict payload decoders were bypassed whenever a schema is given": [
    ('C15', 'with a guiding type DER/CER accepted BOOLEAN 01, DER accepted segmented strings; DER accepted segmented character strings always')],
+ "fix: decoders check SIZE and WITH COMPONENTS constraints of constructed types": [
+   ('C10', 'SEQUENCE OF/SET OF SIZE and SEQUENCE/SET WITH COMPONENTS constraints were not checked on decode'),
+   ('C14', 'decoding yielded constructed values their constraints reject')],
+ "fix: BIT STRING with a SIZE constraint could not be encoded": [
+   ('C10', 'accepted SIZE-constrained BIT STRING could not be re-encoded (padding built a value of the constrained type)'),
+   ('C14', 'encoder refused a valid SIZE-constrained BIT STRING')],
+ "fix: CER/DER encoding of an empty time string leaked IndexError": [
+   ('C10', 'CER/DER re-encoding of an accepted empty time value leaked IndexError'),
+   ('C20', 'CER/DER encoder leaked IndexError on an empty time string')],
 }
